@@ -74,7 +74,7 @@ def genuine(rng, depth=3, qe_curve=None, validity=None, auth_len=None):
     plat_c = make_cert(rng, "Platform CA", "SGX Root CA", plat_k, root_k, *validity.get("platform", (None, None)))
     qe_issuer = ("Platform CA", plat_k) if depth >= 3 else ("SGX Root CA", root_k)
     qe_c = make_cert(rng, "QE", qe_issuer[0], qe_k, qe_issuer[1], *validity.get("qe", (None, None)))
-    auth = rb(rng, rng.choice([0, 1, 32, 100, 1000]) if auth_len is None else auth_len) or b"\x00"
+    auth = rb(rng, rng.choice([0, 1, 32, 100, 1000]) if auth_len is None else auth_len)
     att_xy = raw_xy(att_k.public_key())
     qe_body = report_body(rng, hashlib.sha256(att_xy + auth).digest())
     qe_sig = sign_digest(qe_k, hashlib.sha256(qe_body).digest()) \
@@ -215,6 +215,8 @@ def canon_b64(m):
 
 def flip_hex(rng, h, lo=None, hi=None):
     b = bytearray(bytes.fromhex(h))
+    if not b:
+        return "%02x" % rng.randrange(256)        # nothing to flip: the alteration is an added byte
     i = rng.randrange(lo or 0, hi or len(b))
     b[i] ^= 1 << rng.randrange(8)
     return bytes(b).hex()
